@@ -1008,7 +1008,7 @@ def run(ctx):
     xml_streams = [("xml", False, 900 if big else 110), ("xml-malformed", True, 350 if big else 45),
                    ("xml-text", False, 700 if big else 90), ("xml-text-malformed", True, 200 if big else 25),
                    ("xml-float", False, 500 if big else 60), ("xml-float-malformed", True, 150 if big else 15),
-                   ("xml-bytes", False, 500 if big else 60), ("xml-bytes-malformed", True, 150 if big else 15)]
+                   ("xml-bytes", False, 300 if big else 60), ("xml-bytes-malformed", True, 80 if big else 15)]
     xml_streams = [x for x in xml_streams if not only or x[0] in only]
     for fam, malformed, count in xml_streams:
         r = ctx.sub_rng(fam)
